@@ -17,9 +17,15 @@ SkdLen(p) == PrfLen(p)
 ChildVector(p, s) ==
   LET su == Suite(256, "sha1", p)
       keys == KeysRandom(su, 1, s)
-      st(i) == ChildStep("C08", "A", "K" \o ToString(i) \o "_", p, keys.sk_d,
-                         NonceSeq[((i + s) % Len(NonceSeq)) + 1], EncrSeq[(i % 3) + 1], IntegSeq[((i \div 3) % 4) + 1]) IN
-  VectorD("child", << >>, << SaNew("A", su, keys) >> \o [i \in 1..N |-> st(i)])
+      \* after the N derivations on a name-built Child SA object, every encryption size x integrity algorithm on a Child SA object built
+      \* from a negotiated proposal that offers no DH transform, group 2, or group 14
+      dir(i) == ChildStep("C08", "A", "K" \o ToString(i) \o "_", p, keys.sk_d,
+                          NonceSeq[((i + s) % Len(NonceSeq)) + 1], EncrSeq[(i % 3) + 1], IntegSeq[((i \div 3) % 4) + 1])
+      pv(j) == ChildStepVia("C08", "A", "V" \o ToString(j) \o "_", p, keys.sk_d,
+                            NonceSeq[((j + s) % Len(NonceSeq)) + 1], EncrSeq[(j % 3) + 1], IntegSeq[((j \div 3) % 3) + 2],
+                            << "proposal", "proposal-dh2", "proposal-dh14" >>[((j \div 9) % 3) + 1])
+      st(i) == IF i <= N THEN dir(i) ELSE pv(i - N - 1) IN
+  VectorD("child", << >>, << SaNew("A", su, keys) >> \o [i \in 1..(N + 27) |-> st(i)])
 
 Init == stage = 0 /\ prf = "" /\ salt = 0
 Next == \/ stage = 0 /\ stage' = 1 /\ prf' \in PrfNames /\ salt' \in (IF Thorough THEN 1..6 ELSE 1..2)
